@@ -13,6 +13,8 @@ import Mathlib.Data.Matrix.Mul
 import Mathlib.Data.Matrix.Diagonal
 import Mathlib.Data.List.Sort
 import Mathlib.Data.Prod.Lex
+import Mathlib.LinearAlgebra.Matrix.Trace
+import Mathlib.Data.List.MinMax
 
 open Finset BigOperators Matrix
 
@@ -57,47 +59,47 @@ def hyperplaneData (T : Matrix (Fin (n + 2)) (Fin (n + 2)) K) (normal : Fin (n +
     Fin (n + 2) → Fin (n + 2) → K :=
   Fin.cons normal fun j => stdIdeal j ᵥ* T
 
-/-! ### `Hyperplane.from_reflection`: the eigenvalue test -/
+/-! ### `Hyperplane.from_reflection`: the acceptance test
+
+(repaired code) A reflection `R` acting on row vectors is `v ↦ v − 2⟨v,d⟩/⟨d,d⟩ d`, so every row of
+`R − 1` is a multiple of the normal `d`.  `from_reflection` reads `d` off the largest row of
+`R − 1`, accepts when `R` agrees with the closed-form reflection in `d` up to
+`ERROR_THRESHOLD · max(1, |R|)` entrywise, and then builds the hyperplane from `d`, which
+`spacelike_to` refuses unless `d` is spacelike.  (The earlier test compared the eigenvalues
+returned by `eig` with `(-1, 1, …, 1)` at an absolute threshold, which numpy cannot meet for walls
+far from the centre of the ball.) -/
 
 section ordered
 variable [LinearOrder K]
 
-/-- `expected_evals`: `(-1, 1, …, 1)` of the given length -/
-def expectedEvals : ℕ → List K
-  | 0 => []
-  | k + 1 => (-1 : K) :: List.replicate k 1
-
-/-- the acceptance test of `from_reflection` on the (real) spectrum returned by `eig`:
-`|sort(evals) - (-1,1,…,1)| ≤ ε` entrywise (`ε = ERROR_THRESHOLD = 1e-8`) -/
-def isReflSpectrum (ε : K) (evals : List K) : Bool :=
-  ((evals.mergeSort (fun a b => decide (a ≤ b))).zip (expectedEvals evals.length)).all
-    fun p => decide (|p.1 - p.2| ≤ ε)
-
-/-- the whole acceptance decision of `from_reflection`: the spectrum test, then the spacelike test
-that `spacelike_to` applies to the chosen `(-1)`-eigenvector (after `normalize`, so its Minkowski
-norm is `±1` or `0`): `normsq > ERROR_THRESHOLD`.  `vnorm` is the Minkowski norm of that
-normalised eigenvector. -/
-def fromReflectionAccepts (ε : K) (evals : List K) (vnorm : K) : Bool :=
-  isReflSpectrum ε evals && decide (ε < vnorm)
-
 /-- `M` and `-M` are the same isometry, so `from_reflection` first passes to the representative of
-non-negative trace; on the spectrum this negates every eigenvalue when their sum is negative -/
-def traceRep (evals : List K) : List K :=
-  if evals.sum < 0 then evals.map (fun x => -x) else evals
+non-negative trace -/
+def traceRep (M : Matrix (Fin (n + 1)) (Fin (n + 1)) K) : Matrix (Fin (n + 1)) (Fin (n + 1)) K :=
+  if Matrix.trace M < 0 then -M else M
 
-/-- the acceptance decision of `from_reflection` on either representative `±M` -/
-def fromReflectionAcceptsRep (ε : K) (evals : List K) (vnorm : K) : Bool :=
-  fromReflectionAccepts ε (traceRep evals) vnorm
+/-- row `k` of `M − 1` -/
+def offsetRow (M : Matrix (Fin (n + 1)) (Fin (n + 1)) K) (k : Fin (n + 1)) : Fin (n + 1) → K :=
+  fun j => M k j - (if k = j then 1 else 0)
 
-/-- scan for `np.argmin` (first minimum): position `i` in the scan, best value and index so far -/
-def argminGo : List K → ℕ → K → ℕ → ℕ
-  | [], _, _, bi => bi
-  | x :: xs, i, b, bi => if x < b then argminGo xs (i + 1) x i else argminGo xs (i + 1) b bi
+/-- `np.argmax` of the Euclidean square norms of the rows of `M − 1` (first maximum) -/
+def largestRow (M : Matrix (Fin (n + 1)) (Fin (n + 1)) K) : Fin (n + 1) :=
+  ((List.finRange (n + 1)).argmax fun k => nsq (offsetRow M k)).getD 0
 
-/-- index of the eigenvalue with least real part (`np.argmin`: first minimum) -/
-def argminIdx : List K → Option ℕ
-  | [] => none
-  | x :: xs => some (argminGo xs 1 x 0)
+/-- `|M|`: the largest absolute value of an entry -/
+def matMax (M : Matrix (Fin (n + 1)) (Fin (n + 1)) K) : K :=
+  Finset.univ.sup' ⟨((0 : Fin (n + 1)), (0 : Fin (n + 1))), Finset.mem_univ _⟩ fun p => |M p.1 p.2|
+
+/-- the normal `from_reflection` reads off `M` (after passing to the representative of
+non-negative trace) -/
+def reflNormal (M : Matrix (Fin (n + 1)) (Fin (n + 1)) K) : Fin (n + 1) → K :=
+  offsetRow (traceRep M) (largestRow (traceRep M))
+
+/-- the whole acceptance decision of `from_reflection`: the representative of non-negative trace
+agrees entrywise, up to `ε · max(1, |M|)`, with the reflection in the normal read off it, and that
+normal is spacelike (the test `spacelike_to` applies to it) -/
+def fromReflectionAccepts (ε : K) (M : Matrix (Fin (n + 1)) (Fin (n + 1)) K) : Bool :=
+  decide (∀ i j, |traceRep M i j - reflMat (reflNormal M) i j| ≤ ε * max 1 (matMax (traceRep M)))
+    && decide (0 < mink (reflNormal M) (reflNormal M))
 
 /-! ### `Isometry._fixpoint_data`: ordering of the eigenvectors -/
 
